@@ -107,7 +107,11 @@ I0 = {'COMMIT': 'ICommit', 'BIG_MAP_DIFF': 'IBigMapDiff', 'RESET': 'IReset'}
 
 
 def is_m(i):
-    return i[0] in M0 or i[0] in MT or i[0] in ('PUSH', 'EMPTY_BIG_MAP')
+    return i[0] in M0 or i[0] in MT or i[0] in ('PUSH', 'EMPTY_BIG_MAP', 'DIP', 'IF_NONE')
+
+
+def body_text(b):
+    return '{ ' + ' ; '.join(m_text(x) for x in b) + ' }' if b else '{}'
 
 
 def m_text(i):
@@ -118,6 +122,10 @@ def m_text(i):
         return f'{op} {ty_text(i[1], False)}'
     if op == 'EMPTY_BIG_MAP':
         return f'EMPTY_BIG_MAP {ty_text(i[1], False)} {ty_text(i[2], False)}'
+    if op == 'DIP':
+        return f'DIP {body_text(i[1])}'
+    if op == 'IF_NONE':
+        return f'IF_NONE {body_text(i[1])} {body_text(i[2])}'
     return op
 
 
@@ -129,6 +137,10 @@ def m_coq(i):
         return f'({MT[op]} {ty_coq(i[1])})'
     if op == 'EMPTY_BIG_MAP':
         return f'(MEmptyBigMap {ty_coq(i[1])} {ty_coq(i[2])})'
+    if op == 'DIP':
+        return f'(MDip {clist(m_coq(x) for x in i[1])})'
+    if op == 'IF_NONE':
+        return f'(MIfNone {clist(m_coq(x) for x in i[1])} {clist(m_coq(x) for x in i[2])})'
     return M0[op]
 
 
@@ -466,6 +478,46 @@ def phrase_update(rng, st):
     return [('PUSH', vt, J(gen_lit(rng, vt))), ('SOME',), ('PUSH', wrong, J(gen_lit(rng, wrong))), ('UPDATE',)]   # ill-typed key
 
 
+def phrase_nested(rng, st, exact=False):
+    """DIP / IF_NONE phrases whose bodies touch the context or big_maps; st is the symbolic stack (updated)"""
+    r = rng.random()
+    if r < 0.5 and st:
+        # DIP over the top element: the body works on what is below
+        below = st[1:]
+        if below and below[0][0] == 'big_map' and rng.random() < 0.7:
+            body = phrase_update(rng, below)
+        elif rng.random() < 0.5:
+            k, v = rng.choice(KEY_TYPES), rng.choice(VAL_TYPES)
+            body = [('EMPTY_BIG_MAP', k, v)]
+            below.insert(0, big_map(k, v))
+        else:
+            body = [('PUSH', INT, J(gen_lit(rng, INT))), ('DROP',)]
+        if exact and len(below) >= 1 and rng.random() < 0.4:   # only when the stack is known exactly (see MDip in Repl.v)
+            body = [('DIP', [('UNIT',), ('DROP',)])] + body     # nested DIP, an element is visible below
+        st[1:] = below
+        return [('DIP', body)]
+    # IF_NONE on a pushed option or on the result of a GET
+    k, v = rng.choice(KEY_TYPES), rng.choice(VAL_TYPES)
+    mk = [('EMPTY_BIG_MAP', k, v), ('DROP',)]
+    if st and st[0][0] == 'big_map' and rng.random() < 0.6:
+        _, kt, vt = st[0]
+        return [('DUP',), ('PUSH', kt, J(gen_lit(rng, kt))), ('GET',),
+                ('IF_NONE', mk if rng.random() < 0.5 else [], [('DROP',)] + (mk if rng.random() < 0.5 else []))]
+    lit = gen_lit(rng, option(NAT))
+    return [('PUSH', option(NAT), J(lit)), ('IF_NONE', mk, [('DROP',)])]
+
+
+def nested_sites(code):
+    """paths to the instruction lists inside DIP / IF_NONE bodies of a cell"""
+    out = []
+    for idx, i in enumerate(code):
+        if i[0] == 'DIP':
+            out.append((idx, 1))
+        elif i[0] == 'IF_NONE':
+            out += [(idx, 1), (idx, 2)]
+    return out
+
+
 FAIL_KINDS = ['failwith', 'failwith_empty', 'illtyped_car', 'illtyped_add', 'underflow', 'mutez_overflow', 'bad_literal', 'bad_push_type',
               'parse', 'parse_eof', 'unknown_prim', 'wrong_arity', 'invalid_type', 'begin_undeclared_or_bad', 'commit_bad']
 
@@ -530,6 +582,10 @@ def gen_cell(rng, view):
             if sty[0] == 'big_map' and rng.random() < 0.7:
                 tmp = [sty]
                 body += phrase_update(rng, tmp)
+            if rng.random() < 0.3:
+                body += [('NONE', NAT), ('IF_NONE', [('EMPTY_BIG_MAP', INT, INT), ('DROP',)], [('FAILWITH',)])]
+            if rng.random() < 0.2:
+                body += [('DIP', [('UNIT',), ('DROP',)] if rng.random() < 0.7 else [('FAILWITH',)])]
             body += rng.choice([[('NIL', OPERATION), ('PAIR',)], [('NIL', OPERATION), ('PAIR',)], [('FAILWITH',)], [('NIL', OPERATION), ('SWAP',), ('PAIR',)]])
             code.append(('code', body))
             has_code = True
@@ -542,8 +598,10 @@ def gen_cell(rng, view):
             if rng.random() < 0.8:
                 code.append(rng.choice([('CDR',), ('UNPAIR',)]))
                 st = [sty] if code[-1] == ('CDR',) else [pty, sty]
-        elif r < 0.62 and top is not None and top[0] == 'big_map':
+        elif r < 0.56 and top is not None and top[0] == 'big_map':
             code += phrase_update(rng, st)
+        elif r < 0.64:
+            code += phrase_nested(rng, st, exact=not code)
         elif r < 0.74 and sty is not None:
             # towards COMMIT: storage value, NIL operation, PAIR, COMMIT (possibly spread over cells)
             if st == [pair(lst(OPERATION), sty)]:
@@ -605,6 +663,16 @@ def inject_failure(rng, cell, kind):
     code = list(cell['code'])
     pos = rng.randrange(0, len(code) + 1)
     extra = failing(rng, kind)
+    sites = nested_sites(code)
+    if extra is not None and sites and rng.random() < 0.6 and not any(x[0] in ('BEGIN', 'COMMIT') for x in extra):
+        # fail at a position inside the body of a DIP / IF_NONE
+        idx, arm = rng.choice(sites)
+        body = list(code[idx][arm])
+        p = rng.randrange(0, len(body) + 1)
+        ins = list(code[idx])
+        ins[arm] = body[:p] + extra + (body[p:] if rng.random() < 0.5 else [])
+        code[idx] = tuple(ins)
+        return {'code': code, 'braces': cell['braces']}, idx
     if extra is not None:
         return {'code': code[:pos] + extra + (code[pos:] if rng.random() < 0.5 else []), 'braces': cell['braces']}, pos
     text = ' ; '.join(i_text(i) for i in code[:max(pos, 1)]) + rng.choice(BAD_TEXT[kind])
@@ -799,6 +867,14 @@ HAND = [
      {'code': [('RUN', J(('unit',)), J(5))]},
      {'code': [('EMPTY_BIG_MAP', STRING, INT), ('code', [('FAILWITH',)]), ('RUN', J(('unit',)), J([]))]},
      {'code': [('RUN', J(('unit',)), J([('elt', 'a', 1), ('elt', 'b', 2)]))]}],
+    # failures inside DIP / IF_NONE bodies after the body touched the context; DIP inside a declared code body
+    [{'code': [('storage', big_map(STRING, INT)), ('parameter', UNIT), ('EMPTY_BIG_MAP', STRING, INT), ('PUSH', INT, J(7))]},
+     {'code': [('DIP', [('PUSH', INT, J(1)), ('SOME',), ('PUSH', STRING, J('a')), ('UPDATE',), ('EMPTY_BIG_MAP', NAT, NAT), ('UNIT',), ('FAILWITH',)])]},
+     {'code': [('DIP', [('DIP', [('EMPTY_BIG_MAP', NAT, NAT)]), ('PUSH', INT, J(2)), ('SOME',), ('PUSH', STRING, J('b')), ('UPDATE',)])]},
+     {'code': [('DROP',), ('DUP',), ('PUSH', STRING, J('b')), ('GET',), ('IF_NONE', [('UNIT',), ('FAILWITH',)], [('DROP',), ('UNIT',), ('DROP',)])]},
+     {'code': [('DUP',), ('PUSH', STRING, J('zz')), ('GET',), ('IF_NONE', [('EMPTY_BIG_MAP', INT, INT), ('PUSH', INT, J(1)), ('CAR',)], [('DROP',)])]},
+     {'code': [('NIL', OPERATION), ('PAIR',), ('DIP', [('DROP',)]), ('COMMIT',)]},
+     {'code': [('EMPTY_BIG_MAP', STRING, INT), ('NIL', OPERATION), ('PAIR',), ('COMMIT',)]}],
 ]
 
 
@@ -813,8 +889,8 @@ def run(ctx: lib.Ctx) -> None:
     from pytezos.michelson.tags import prim_tags
     ctx.rule = ('sessions of <= 8 (quick) / <= 14 (thorough) cells generated adaptively against a live Interpreter from the '
                 'property\'s alphabet (parameter/storage/code declarations, PUSH and stack shuffling, EMPTY_BIG_MAP, UPDATE/GET/'
-                'GET_AND_UPDATE, BEGIN/COMMIT/RUN, BIG_MAP_DIFF, RESET); about a third of the cells get a failure injected at a random '
-                'instruction position (FAILWITH, ill-typed operand, stack underflow, mutez overflow, ill-typed literal, unpushable / invalid type, '
+                'GET_AND_UPDATE, DIP and IF_NONE with nested bodies, BEGIN/COMMIT/RUN, BIG_MAP_DIFF, RESET); about a third of the cells get a failure injected at a random '
+                'instruction position, also inside DIP / IF_NONE bodies (FAILWITH, ill-typed operand, stack underflow, mutez overflow, ill-typed literal, unpushable / invalid type, '
                 'undeclared BEGIN, bad COMMIT, parse error, unknown primitive, wrong arity); plus hand-written sessions and the '
                 'witness of fixed defect 19. non-trivial = some cell fails while a big_map is on the stack, or fails after touching the context; '
                 'distinct = distinct cell texts')
@@ -979,6 +1055,10 @@ def fix_instr(i):
         return ('code', [fix_instr(x) for x in i[1]])
     if op in ('BEGIN', 'RUN'):
         return (op, i[1], i[2])
+    if op == 'DIP':
+        return ('DIP', [fix_instr(x) for x in i[1]])
+    if op == 'IF_NONE':
+        return ('IF_NONE', [fix_instr(x) for x in i[1]], [fix_instr(x) for x in i[2]])
     return (op,)
 
 
